@@ -303,3 +303,103 @@ func (h *vfE2H) doPausedRestart() {
 		h.fail("lost", "pausedrestart: after unpause %d of the 4 messages published while paused were delivered", got)
 	}
 }
+
+// doBusyPause — C03 (seeded C03-m7): a topic is paused WHILE its pump is busy (mid-backlog: the pump is
+// kept inside Channel.PutMessage of the topic's channel through that channel's exitMutex, five more
+// messages wait in the topic queue). Topic.doPause is a handshake: Pause() returns only when the pump has
+// taken the notification, so from the moment it returns nothing more may be handed to the channel —
+// whatever was published before or after — until UnPause(), after which everything is. (How many of
+// the backlog the pump still hands over BEFORE Pause() returns is the select's choice and not judged.)
+func (h *vfE2H) doBusyPause() {
+	dir, err := os.MkdirTemp(os.Getenv("VERIF_OUT"), "e2busypause-")
+	if err != nil {
+		panic(err)
+	}
+	defer os.RemoveAll(dir)
+	defer h.forgetBusy()
+	n := h.privateNSQD(dir, nil)
+	go n.Main()
+	defer n.Exit()
+	tp := n.GetTopic("vfe2_busypause")
+	ch := tp.GetChannel("c")
+	total := uint64(0)
+	pub := func(k int) {
+		for i := 0; i < k; i++ {
+			if err := tp.PutMessage(NewMessage(tp.GenerateID(), []byte("bp"))); err != nil {
+				h.fail("pub", "busypause: publish: %v", err)
+			}
+			total++
+		}
+	}
+	for round := 0; round < 3 && !h.aborted; round++ {
+		base := atomic.LoadUint64(&ch.messageCount)
+		ch.exitMutex.Lock()
+		locked := true
+		unlock := func() {
+			if locked {
+				ch.exitMutex.Unlock()
+				locked = false
+			}
+		}
+		pub(6)
+		for i := 0; i < 4000 && tp.Depth() > 5; i++ {
+			time.Sleep(250 * time.Microsecond)
+		}
+		if tp.Depth() > 5 {
+			unlock()
+			h.fail("sched", "busypause: the topic pump did not pick a message up")
+			return
+		}
+		// the pump now sits inside ch.PutMessage with one message in its hands, 5 wait in the topic queue
+		ret := make(chan bool, 1)
+		go func() { tp.Pause(); ret <- true }()
+		early := false
+		select {
+		case <-ret:
+			early = true
+		case <-time.After(60 * time.Millisecond):
+		}
+		var c0 uint64
+		if early {
+			h.count("sched:busypause:pause-returned-while-pump-busy")
+			c0 = atomic.LoadUint64(&ch.messageCount) + 1 // the message in the pump's hands
+			unlock()
+		} else {
+			h.count("sched:busypause:pause-waited-for-pump")
+			unlock()
+			select {
+			case <-ret:
+			case <-time.After(8 * time.Second):
+				h.fail("pause-http", "busypause: Topic.Pause() did not return within 8 s after the pump was released")
+				h.aborted = true
+				return
+			}
+			c0 = atomic.LoadUint64(&ch.messageCount)
+		}
+		if !tp.IsPaused() {
+			h.fail("topic-pause", "busypause: Pause() returned but the topic is not paused")
+		}
+		pub(2) // a paused topic keeps accepting publishes
+		time.Sleep(40 * time.Millisecond)
+		c1 := atomic.LoadUint64(&ch.messageCount)
+		if c1 > c0 {
+			h.fail("topic-pause", "Topic.Pause() had returned (topic paused: flag set, pump busy with a backlog of 5 when it was issued) — yet %d more message(s) were handed to channel c afterwards (message_count %d -> %d of %d published; topic depth %d)",
+				c1-c0, c0, c1, total, tp.Depth())
+			h.aborted = true
+			return
+		}
+		if c1-base >= 8 {
+			h.count("sched:busypause:backlog-already-gone")
+		}
+		tp.UnPause()
+		for i := 0; i < 8000 && atomic.LoadUint64(&ch.messageCount) < total; i++ {
+			time.Sleep(250 * time.Microsecond)
+		}
+		if got := atomic.LoadUint64(&ch.messageCount); got != total {
+			h.fail("settle-stall", "busypause: after UnPause() only %d of %d published messages reached channel c within 2 s (topic depth %d, paused=%v)",
+				got, total, tp.Depth(), tp.IsPaused())
+			h.aborted = true
+			return
+		}
+	}
+}
